@@ -14,8 +14,14 @@ import (
 // Param is one parameter with an optional init form (text, "" = none).
 //
 // Init forms are restricted to a tiny language this file evaluates itself:
-// an integer literal, a keyword, a parameter name (its value), (+ i j) over
-// integer literals, and (list p1 p2 ...) over parameter names or integers.
+// an integer literal, a keyword, a variable name (its value), (+ i j) over
+// integer literals, (list v1 v2 ...) over variable names or integers, and
+// (c04-init N v1 v2 ...): a harness builtin with a side effect - it appends N
+// to the trace of the call - that returns N, or (N v1 v2 ...) when given
+// variables. A variable is an EARLIER parameter of the same lambda list, or
+// else a variable of the lexically enclosing scope (Outer); a later
+// parameter is not visible to an init form (CLHS 3.4.1: parameters are
+// processed and bound left to right).
 type Param struct {
 	Name string `json:"n"`
 	Init string `json:"d,omitempty"`
@@ -105,6 +111,18 @@ type Result struct {
 	// parameters are prescribed (Partial is true).
 	Vals    map[string]string
 	Partial bool
+	// Trace lists the ids of the c04-init forms that must have been
+	// evaluated, in order (init forms of supplied parameters are not
+	// evaluated).
+	Trace []string
+	// ForwardRef names the parameter whose init form names a LATER parameter
+	// of the list: that name then means the outer variable, or is unbound
+	// (UnboundRead is set: evaluating the form is an unbound-variable
+	// error). Later holds what the init form would yield if it (wrongly) saw
+	// the later parameters of the list.
+	ForwardRef  string
+	UnboundRead string
+	Later       string
 	// Notes describes, per parameter, the situation it was bound in (used
 	// to name the failing construct): supplied | default | default-form |
 	// dup | after-key ...
@@ -121,11 +139,37 @@ func list(vals []string) string {
 	return "(" + strings.Join(vals, " ") + ")"
 }
 
-// evalInit evaluates an init form in the environment of earlier parameters.
-func evalInit(form string, env map[string]string) (val string, isForm bool) {
+type evaluator struct {
+	env     map[string]string // parameters bound so far
+	outer   map[string]string // variables of the enclosing scope
+	params  map[string]bool   // every parameter name of the lambda list
+	trace   []string
+	unbound bool
+	forward bool // an init form named a parameter that is not bound yet
+}
+
+func (e *evaluator) lookup(name string) string {
+	if v, ok := e.env[name]; ok {
+		return v
+	}
+	if e.params[name] {
+		e.forward = true
+	}
+	if v, ok := e.outer[name]; ok {
+		return v
+	}
+	e.unbound = true
+	return "#<unbound " + name + ">"
+}
+
+// eval evaluates an init form in the environment of earlier parameters.
+func (e *evaluator) eval(form string) (val string, isForm bool) {
 	form = strings.TrimSpace(form)
 	if form == "" || form == "nil" {
 		return "nil", false
+	}
+	if form == "t" {
+		return "t", false
 	}
 	if _, err := strconv.Atoi(form); err == nil {
 		return form, false
@@ -134,14 +178,15 @@ func evalInit(form string, env map[string]string) (val string, isForm bool) {
 		return form, false
 	}
 	if !strings.HasPrefix(form, "(") {
-		// a variable reference
-		v, ok := env[form]
-		if !ok {
-			panic("ref: init form refers to unknown parameter " + form)
-		}
-		return v, true
+		return e.lookup(form), true
 	}
 	toks := strings.Fields(strings.Trim(form, "()"))
+	atom := func(t string) string {
+		if _, err := strconv.Atoi(t); err == nil {
+			return t
+		}
+		return e.lookup(t)
+	}
 	switch toks[0] {
 	case "+":
 		s := 0
@@ -156,22 +201,58 @@ func evalInit(form string, env map[string]string) (val string, isForm bool) {
 	case "list":
 		var vs []string
 		for _, t := range toks[1:] {
-			if v, ok := env[t]; ok {
-				vs = append(vs, v)
-			} else if _, err := strconv.Atoi(t); err == nil {
-				vs = append(vs, t)
-			} else {
-				panic("ref: list over unknown " + t)
-			}
+			vs = append(vs, atom(t))
+		}
+		return list(vs), true
+	case "c04-init":
+		// arguments are evaluated first, then the side effect happens
+		var vs []string
+		for _, t := range toks[1:] {
+			vs = append(vs, atom(t))
+		}
+		e.trace = append(e.trace, toks[1])
+		if len(vs) == 1 {
+			return vs[0], true
 		}
 		return list(vs), true
 	}
 	panic("ref: unsupported init form " + form)
 }
 
-// Bind computes what the lambda list prescribes for args.
-func Bind(l *LL, args []string) *Result {
+// Bind computes what the lambda list prescribes for args. outer holds the
+// variables of the lexically enclosing scope (may be nil).
+func Bind(l *LL, args []string, outer map[string]string) *Result {
 	res := &Result{Vals: map[string]string{}, Notes: map[string]string{}}
+	params := map[string]bool{}
+	allNames, _ := l.Names()
+	for _, n := range allNames {
+		params[n] = true
+	}
+	ev := &evaluator{env: res.Vals, outer: outer, params: params}
+	evalInit := func(name, form string) (string, bool) {
+		wasU, wasF := ev.unbound, ev.forward
+		v, isForm := ev.eval(form)
+		if ev.unbound && !wasU {
+			res.UnboundRead = name
+		}
+		if ev.forward && !wasF {
+			res.ForwardRef = name
+			// what the form yields when every parameter of the list is visible
+			full := map[string]string{}
+			for k, x := range res.Vals {
+				full[k] = x
+			}
+			for _, kp := range l.Keys {
+				if _, has := full[kp.Name]; !has {
+					full[kp.Name] = supplied(l, args, kp.Name)
+				}
+			}
+			later := &evaluator{env: full, outer: outer}
+			res.Later, _ = later.eval(form)
+		}
+		res.Trace = ev.trace
+		return v, isForm
+	}
 	n := len(args)
 	if n < len(l.Req) {
 		res.Class = TooFew
@@ -191,7 +272,7 @@ func Bind(l *LL, args []string) *Result {
 			i++
 			continue
 		}
-		v, isForm := evalInit(o.Init, env)
+		v, isForm := evalInit(o.Name, o.Init)
 		env[o.Name] = v
 		res.Notes[o.Name] = "default"
 		if isForm {
@@ -242,10 +323,12 @@ func Bind(l *LL, args []string) *Result {
 			declared[":"+k.Name] = true
 		}
 		for k := 0; k < len(remaining); k += 2 {
-			if !declared[remaining[k]] && !l.Allow {
-				// CLHS 3.5.1.4 makes it an error; slip's defun documentation
-				// says other keys are always allowed: the property leaves it open
-				res.Class, res.Why = Unpinned, "unknown-key"
+			if !declared[remaining[k]] {
+				// CLHS 3.5.1.4 makes an undeclared key an error unless
+				// &allow-other-keys is given; slip documents (defun, lambda-list
+				// argument) that :allow-other-keys is always true: the call is
+				// valid and the undeclared pair is ignored
+				res.Why = "unknown-key"
 			}
 		}
 		for _, kp := range l.Keys {
@@ -261,7 +344,7 @@ func Bind(l *LL, args []string) *Result {
 			}
 			switch {
 			case cnt == 0:
-				v, isForm := evalInit(kp.Init, env)
+				v, isForm := evalInit(kp.Name, kp.Init)
 				env[kp.Name] = v
 				res.Notes[kp.Name] = "default"
 				if isForm {
@@ -277,7 +360,7 @@ func Bind(l *LL, args []string) *Result {
 		}
 	}
 	for _, a := range l.Aux {
-		v, _ := evalInit(a.Init, env)
+		v, _ := evalInit(a.Name, a.Init)
 		env[a.Name] = v
 		switch {
 		case a.Init == "":
@@ -296,4 +379,20 @@ func Bind(l *LL, args []string) *Result {
 func isInt(s string) bool {
 	_, err := strconv.Atoi(s)
 	return err == nil
+}
+
+// supplied returns the value the caller supplied for key name (leftmost), or
+// "nil" when it is absent.
+func supplied(l *LL, args []string, name string) string {
+	i := len(l.Req) + len(l.Opt)
+	if len(args) < i {
+		return "nil"
+	}
+	rem := args[i:]
+	for k := 0; k+1 < len(rem); k += 2 {
+		if rem[k] == ":"+name {
+			return rem[k+1]
+		}
+	}
+	return "nil"
 }
